@@ -41,10 +41,16 @@ def num_cases(rng, tier):
     pairs = list(pairs)
     # zero on either or both sides is where the shortcuts and the zero-divisor aborts live: always kept
     zero_pairs = [(0, 0)] + [(v, 0) for v in (1, 2, D, W128, W256 - 1)] + [(0, v) for v in (1, 2, D, W128, W256 - 1)]
+    # values whose low limb(s) are zero or that sit on a limb boundary, against small multipliers and the pivots:
+    # where "fast paths" keyed on one limb go wrong
+    limbv = [W64, 2 * W64, 18 * 10 ** 18, W64 + 10 ** 18, W128, W128 + W64, 1 << 192,
+             (W64 - 1) << 64, (1 << 192) + W64, 3 * W128, 5 * 10 ** 18 + W64 * 7, 10 ** 18 * W64]
+    limb_pairs = [(a, b) for a in limbv for b in (2, 3, 1000, D, W128, 7 * D + 1)]
+    limb_pairs += [(b, a) for (a, b) in limb_pairs]
     if tier == "quick":
-        pairs = zero_pairs + rng.sample(pairs, 260)
+        pairs = zero_pairs + limb_pairs + rng.sample(pairs, 260)
     else:
-        pairs = zero_pairs + pairs
+        pairs = zero_pairs + limb_pairs + pairs
     cross = [(a, b) for a in sub for b in sub]
     if len(cross) > npairs * 4:
         cross = rng.sample(cross, npairs * 4)
